@@ -10,6 +10,7 @@ package volatility
 //@ guarantees[C06] "input-close" len(arg(BollingerBands_Compute, 0, 0)) == len(snapshots) && (forall k :: 0 <= k && k < len(snapshots) ==> arg(BollingerBands_Compute, 0, 0)[k] == snapshots[k].Close)
 //@ guarantees[C06] "close-above-upper-buys" forall k :: 0 <= k && k < len(res(BollingerBands_Compute, 0, 0)) ==> (snapshots[k + b.BollingerBands.IdlePeriod()].Close > res(BollingerBands_Compute, 0, 0)[k] ==> result[k + b.BollingerBands.IdlePeriod()] == 1)
 //@ guarantees[C06] "close-below-lower-sells" forall k :: 0 <= k && k < len(res(BollingerBands_Compute, 0, 0)) ==> (snapshots[k + b.BollingerBands.IdlePeriod()].Close < res(BollingerBands_Compute, 0, 2)[k] && snapshots[k + b.BollingerBands.IdlePeriod()].Close <= res(BollingerBands_Compute, 0, 0)[k] ==> result[k + b.BollingerBands.IdlePeriod()] == 0 - 1)
+//@ guarantees[C06] "inside-the-bands-holds" forall k :: 0 <= k && k < len(res(BollingerBands_Compute, 0, 0)) ==> (snapshots[k + b.BollingerBands.IdlePeriod()].Close < res(BollingerBands_Compute, 0, 0)[k] && snapshots[k + b.BollingerBands.IdlePeriod()].Close > res(BollingerBands_Compute, 0, 2)[k] ==> result[k + b.BollingerBands.IdlePeriod()] == 0)
 //@ ensures[C05] "len" len(snapshots) >= (b.BollingerBands.IdlePeriod()) ==> len(result) == len(snapshots)
 //@ ensures[C05] "len-short" len(result) >= len(snapshots)
 //@ ensures[C05] "warmup-hold" forall kk :: 0 <= kk && kk < min((b.BollingerBands.IdlePeriod()), len(result)) ==> result[kk] == 0
